@@ -313,6 +313,24 @@ theorem decodeNumeric_long (neg : Bool) (w : Int) (ds : Nat) (digits : List Nat)
     rw [computeNumeric_view (d :: rest) w neg hd (by simp)]
     simp [Spec.Numeric.view]
 
+/-- every well-formed numeric, in each header form that admits it, decodes to its exact value -/
+theorem decodeNumeric_enc (n : Spec.Numeric) (h : n.WF) (form : Spec.HeaderForm) (hf : form.admits n) :
+    (decodeNumeric (Spec.encNumeric form n)).map NumRes.toView = .ok (some n.view) := by
+  cases n with
+  | nan => cases form <;> rfl
+  | pinf => cases form <;> rfl
+  | ninf => cases form <;> rfl
+  | fin neg w ds digits =>
+    obtain ⟨hd, h1, h2, h3⟩ := h
+    cases form with
+    | short =>
+      obtain ⟨a, b, c⟩ := hf
+      exact decodeNumeric_short neg w ds digits hd a b c
+    | long => exact decodeNumeric_long neg w ds digits hd h1 h2 h3
+
+theorem encNumeric_pos (form : Spec.HeaderForm) (n : Spec.Numeric) : 0 < (Spec.encNumeric form n).length := by
+  cases n <;> cases form <;> simp [Spec.encNumeric, le_length] <;> omega
+
 /-! ### the varlena wrapper inside JSONB -/
 
 theorem decodeJNumeric_varlena4 (p : Bytes) (h1 : 0 < p.length) (h2 : p.length + 4 < 2 ^ 30) :
